@@ -361,13 +361,17 @@ AInit(p, i) == [val |-> i, pc |-> [t \in DOMAIN p |-> 1],
 ThreadOutcome(rs) == IF Len(rs) > 0 /\ IsErr(rs[Len(rs)]) THEN <<rs[Len(rs)]>> ELSE rs
 OutcomeOf(v, r) == [val |-> v, res |-> [t \in DOMAIN r |-> ThreadOutcome(r[t])]]
 
-RECURSIVE SerialFrom(_, _)
-SerialFrom(p, cf) ==
-  LET live == {t \in DOMAIN p : ~ADone(p, cf, t)} IN
-  IF live = {} THEN {OutcomeOf(cf.val, cf.res)}
-  ELSE UNION {SerialFrom(p, AStep(p, cf, t)) : t \in live}
+\* all configurations reachable from the set S, level by level (equal configurations reached
+\* by different orders are merged, so the cost is the number of configurations, not of orders)
+ALive(p, cf) == {t \in DOMAIN p : ~ADone(p, cf, t)}
+RECURSIVE AFinal(_, _)
+AFinal(p, S) ==
+  LET fin == {cf \in S : ALive(p, cf) = {}}
+      rest == S \ fin
+  IN IF rest = {} THEN fin
+     ELSE fin \cup AFinal(p, UNION {{AStep(p, cf, t) : t \in ALive(p, cf)} : cf \in rest})
 
-SerialOutcomes(p, i) == SerialFrom(p, AInit(p, i))
+SerialOutcomes(p, i) == {OutcomeOf(cf.val, cf.res) : cf \in AFinal(p, {AInit(p, i)})}
 
 \* thread t's program alone
 Alone(p, t) == [u \in DOMAIN p |-> IF u = t THEN p[t] ELSE <<>>]
@@ -465,7 +469,20 @@ IncrementsPermutation ==
 
 \* atomicity: whatever the lock-level machine produces, some serial order of the atomic
 \* operations produces as well
-OutcomeIsSerial == AllDone => OutcomeOf(val, res) \in SerialOutcomes(prog, init)
+\* (searched depth-first, following only atomic steps whose results agree with what the threads
+\* returned -- the same set as SerialOutcomes, without building all of it in every terminal state)
+RECURSIVE Explains(_, _)
+Explains(p, cf) ==
+  LET live == ALive(p, cf) IN
+  IF live = {} THEN cf.val = val /\ cf.res = res
+  ELSE \E t \in live :
+         LET n == AStep(p, cf, t)
+             a == n.res[t]
+         IN /\ Len(a) <= Len(res[t])
+            /\ (Len(a) > Len(cf.res[t]) => a[Len(a)] = res[t][Len(a)])
+            /\ Explains(p, n)
+OutcomeIsSerial == AllDone => Explains(prog, AInit(prog, init))
+OutcomeInSerialSet == AllDone => OutcomeOf(val, res) \in SerialOutcomes(prog, init)
 
 \* a thread that shares no cell with the others computes what it computes alone
 IndependentRunsEqualSequential ==
@@ -485,6 +502,8 @@ QuiescentAtEnd ==
 
 NoOod == \A t \in Threads : \A n \in 1..Len(res[t]) : res[t][n].k # "ood"
 
-\* liveness, under FairSpec only
+\* DeadlockFree: as a safety property it is TLC's deadlock check (Terminated is the only
+\* terminal step); as liveness, under FairSpec only and without any state constraint:
 Termination == <>AllDone
+DeadlockFree == Termination
 =============================================================================
